@@ -49,6 +49,9 @@ ComposeExpand(p) ==
   {Case("Sprintf", f, <<RShape(sh, TRStr(2, r))>>, <<>>) : f \in ComposeFormats, sh \in RShapes}
   \cup {Case("Sprintf", Fv, <<RShape(sh, TRBytes(2, r))>>, <<>>) : sh \in RShapes \ {"tslice", "tmapkey", "tmapval"}}
   \cup {Case("Sprint", <<>>, <<TRStr(2, r)>>, <<>>)}
+  \* an empty unsafe operand right before the redactable; Go-syntax printing of typed containers of redactables
+  \cup {Case("Sprintf", Fs \o Fv, <<TStr(8, <<>>), TRStr(2, r)>>, <<>>), Case("Sprint", <<>>, <<TStr(8, <<>>), TRStr(2, r)>>, <<>>)}
+  \cup {Case("Sprintf", FsharpV, <<RShape(sh, TRStr(2, r))>>, <<>>) : sh \in {"tslice", "tmapkey", "slice", "structE"}}
   \cup UNION {{Case("Sprintf", <<120>> \o Fv \o <<121>> \o Fs \o <<122>>, <<TRStr(2, r), TRStr(7, R0(q))>>, <<>>),
                Case("Sprint", <<>>, <<TRStr(2, JoinOf(d, r, R0(q)))>>, <<>>),
                Case("Sprintf", F5q, <<TSlice(30, <<TRStr(2, JoinOf(d, r, R0(q))), TRStr(7, r)>>)>>, <<>>)}
@@ -73,7 +76,9 @@ C08Holds(k, r) ==
         /\ out = k.ts[1].b                                               \* Sprint(Sprint(a)) = Sprint(a), joined ones too
         /\ Redact(out) = Redact(k.ts[1].b)
   \* formatting several redactables = concatenation with the literals
-  /\ (Len(k.ts) = 2) => /\ out = <<120>> \o k.ts[1].b \o <<121>> \o k.ts[2].b \o <<122>>
+  /\ (Len(k.ts) = 2 /\ k.ts[1].k = "string") => out = k.ts[2].b                   \* the empty operand adds nothing
+  /\ (Len(k.ts) = 2 /\ k.ts[1].k = "rstring") =>
+                        /\ out = <<120>> \o k.ts[1].b \o <<121>> \o k.ts[2].b \o <<122>>
                         /\ Redact(out) = <<120>> \o Redact(k.ts[1].b) \o <<121>> \o Redact(k.ts[2].b) \o <<122>>
                         /\ (ValidUTF8(out) => Strip(out) = <<120>> \o Strip(k.ts[1].b) \o <<121>> \o Strip(k.ts[2].b) \o <<122>>)
 \* Join = plain concatenation with the delimiter (checked where the joined value is built)
